@@ -340,6 +340,9 @@ pub trait Sut: Send {
     fn load(&self, bytes: &[u8]) -> Result<Box<dyn Sut>, String>;
     /// `bincode::deserialize_from` an `io::Read`
     fn load_reader(&self, bytes: &[u8]) -> Result<Box<dyn Sut>, String>;
+    /// `Deserialize::deserialize_in_place` over a live instance (bincode's `deserialize_in_place`): a roll-back
+    /// to a checkpoint, or a restore into a recycled instance; whatever the target held must be gone
+    fn load_in_place(&mut self, bytes: &[u8]) -> Result<(), String>;
     /// `serde_json::to_string` (a human-readable format; fails on non-finite state, which JSON cannot carry)
     fn save_json(&self) -> Result<String, String>;
     fn load_json(&self, text: &str) -> Result<Box<dyn Sut>, String>;
@@ -348,6 +351,9 @@ pub trait Sut: Send {
     /// Display and Debug through the other paths of `std::fmt`: width, fill, alignment, precision, sign and
     /// zero-padding flags, and pretty Debug; returns the total length (the text itself is not judged)
     fn format_variants(&self, with_debug: bool) -> usize;
+    /// `{}` and `{:?}` into a sink that counts and discards (a logger writing to a socket): the harness allocates
+    /// nothing, so whatever the heap holds afterwards was kept by the indicator
+    fn fmt_discard(&self) -> usize;
     fn period(&self) -> Option<usize>;
     fn multiplier(&self) -> Option<f64>;
 }
@@ -435,6 +441,13 @@ impl<I: Ind> Sut for W<I> {
         // restore from an io::Read (a file, a socket): nothing can be borrowed from the input
         bincode::deserialize_from::<_, I>(std::io::Cursor::new(bytes)).map(|i| Box::new(W(i)) as Box<dyn Sut>).map_err(|e| e.to_string())
     }
+    fn load_in_place(&mut self, bytes: &[u8]) -> Result<(), String> {
+        use bincode::Options;
+        // the configuration `bincode::deserialize` uses
+        let opts = bincode::options().with_fixint_encoding().allow_trailing_bytes();
+        let mut de = bincode::Deserializer::from_slice(bytes, opts);
+        serde::Deserialize::deserialize_in_place(&mut de, &mut self.0).map_err(|e| e.to_string())
+    }
     fn save_json(&self) -> Result<String, String> {
         serde_json::to_string(&self.0).map_err(|e| e.to_string())
     }
@@ -446,6 +459,19 @@ impl<I: Ind> Sut for W<I> {
     }
     fn debug(&self) -> String {
         format!("{:?}", self.0)
+    }
+    fn fmt_discard(&self) -> usize {
+        use std::fmt::Write;
+        struct Sink(usize);
+        impl Write for Sink {
+            fn write_str(&mut self, t: &str) -> std::fmt::Result {
+                self.0 += t.len();
+                Ok(())
+            }
+        }
+        let mut k = Sink(0);
+        let _ = write!(k, "{} {:?}", self.0, self.0);
+        k.0
     }
     fn format_variants(&self, with_debug: bool) -> usize {
         let i = &self.0;
